@@ -65,7 +65,12 @@ struct H {
         c.count("compares");
     }
 
-    std::vector<double> gen_ticks(bool legal) { std::vector<double> t; size_t n = 1 + r.u(8); double x = (double)r.range(-5, 5) * 0.5; for (size_t i = 0; i < n; i++) { t.push_back(x); x += r.chance(0.1) ? 0.0 : 0.25 * (double)(1 + r.u(8)); } if (!legal && n >= 2) { std::swap(t[r.u(n - 1)], t[n - 1]); if (sorted(t)) { t[0] = t[n - 1] + 1; } } return t; }
+    std::vector<double> gen_ticks(bool legal) { std::vector<double> t; size_t n = 1 + r.u(8); double x = (double)r.range(-5, 5) * 0.5; for (size_t i = 0; i < n; i++) { t.push_back(x); x += r.chance(0.1) ? 0.0 : 0.25 * (double)(1 + r.u(8)); } if (!legal && n >= 2) {
+            int how = (int)r.u(3);
+            if (how == 0) { std::swap(t[r.u(n - 1)], t[n - 1]); if (sorted(t)) { t[0] = t[n - 1] + 1; } }
+            else if (how == 1) { size_t i = 1 + r.u(n - 1); t[i] = std::nextafter(t[i - 1], -INFINITY); for (size_t j = i + 1; j < n; j++) if (t[j] < t[i - 1]) t[j] = t[i - 1] + (double)(j - i); }   // barely unsorted: one tick one ulp below its predecessor
+            else { t.assign({3e-16, 2e-16, 4e-16}); }                                                                                     // tiny magnitudes, descending by 1e-16
+        } return t; }
     std::string gen_label() { static const char *v[] = {"time", "voltage", "l a b e l", "\xc3\xa4", "x"}; return r.pick(v); }
 
     void op() {
